@@ -162,7 +162,7 @@ theorem compress_injective (C : Dstu G F) (L : FLaws C.f) (x₁ y₁ x₂ y₂ :
 theorem recover_sound (C : Dstu G F) (L : FLaws C.f) {xp pt : Bytes}
     (h : C.recover xp = (.ok, pt)) :
     ∃ x y, pt = C.encXY (x, y) ∧ pt.length = 2 * C.no ∧
-      ((x ≠ 0 ∨ leNat xp = 0) → y * y + x * y = x * x * x + (if C.A then x * x else 0) + C.B) := by
+      y * y + x * y = x * x * x + (if C.A then x * x else 0) + C.B := by
   cases hd : C.f.ofNat (leNat xp) with
   | none => rw [Fld.recover_none C hd] at h; cases h
   | some x' =>
@@ -172,10 +172,11 @@ theorem recover_sound (C : Dstu G F) (L : FLaws C.f) {xp pt : Bytes}
       simp only [Prod.mk.injEq, true_and] at h
       refine ⟨0, C.f.sqrtF C.B, h.symm, ?_, ?_⟩
       · rw [← h, Fld.encXY_length]; ring
-      · intro _
-        rw [Fld.sqrtF_sq L]
+      · rw [Fld.sqrtF_sq L]
         cases C.A <;> simp
-    · rw [Fld.recover_nz C L hd hx'] at h
+    · by_cases hxn : Fld.xfix C x' = 0
+      · rw [Fld.recover_nz_zero C L hd hx' hxn] at h; cases h
+      rw [Fld.recover_nz C L hd hx' hxn] at h
       cases hq : C.f.qsolve C.f.one (Fld.bval C (Fld.xfix C x')) with
       | none => rw [hq] at h; cases h
       | some z =>
@@ -183,17 +184,7 @@ theorem recover_sound (C : Dstu G F) (L : FLaws C.f) {xp pt : Bytes}
         simp only [Prod.mk.injEq, true_and] at h
         refine ⟨_, _, h.symm, ?_, ?_⟩
         · rw [← h, Fld.encXY_length]; ring
-        · intro hx
-          have hxn : Fld.xfix C x' ≠ 0 := by
-            rcases hx with hx | hx
-            · exact hx
-            · exfalso
-              have := L.dec_enc _ _ hd
-              rw [hx] at this
-              have h0 := L.enc_dec x'
-              rw [this, ← L.toNat_zero, L.enc_dec] at h0
-              exact hx' (Option.some.inj h0).symm
-          have hz := Fld.qsolve_sound L hq
+        · have hz := Fld.qsolve_sound L hq
           rw [L.one_eq, one_mul] at hz
           exact Fld.curve_of_root C L hxn hz _
 
